@@ -161,7 +161,11 @@ func main() {
 				return
 			}
 			if res.Logged {
-				c.Inconclusive("history unexpectedly logged on (generator error): " + desc)
+				// no message of this alphabet is an acceptable Logon: a session that reports itself logged on after one of
+				// them treats a peer that has not logged on as logged on (C06 judges the logon rules themselves), and from
+				// here on it would send it heartbeats, test requests and retransmissions
+				c.Violate(fmt.Sprintf("C07/treats-peer-as-logged-on-without-acceptable-logon/%s/after-%s", j.role, strings.SplitN(al[s].name, "(", 2)[0]),
+					fmt.Sprintf("step %d of [%s]: IsLogged() is true although the history contains no acceptable Logon", k, desc), map[string]interface{}{"history": desc, "seed": c.Seed})
 				return
 			}
 			for _, o := range res.Outs {
